@@ -137,6 +137,7 @@ func checkC13(cx *Ctx, r *Report) {
 	before("decode<time", decode, timeS)
 	before("decode<sp", decode, sp)
 	before("sp<slo-url", sp, slo)
+	cx.checkRecordedAfterDecode(r, "slo:decode:id-recorded", decode, "samlp.LogoutRequestType", "provider.LogoutResponse", "RequestID")
 	// time step getters
 	if timeS != nil {
 		okG := false
@@ -302,4 +303,86 @@ func isZeroIndex(v ssa.Value) bool {
 		return ok1 && ok2 && x+y == 0
 	}
 	return false
+}
+
+// checkRecordedAfterDecode: in the decode step, every path on which the decoder succeeded stores the decoded
+// request's ID into owner.field before it returns - with or without an error. A check placed between the decoder
+// and that store makes the reply to a decodable request lose its InResponseTo.
+func (cx *Ctx) checkRecordedAfterDecode(r *Report, key string, step *Step, decTyp, owner, field string) {
+	w, fx := cx.W, cx.Fx
+	if step == nil || step.Fn("logic") == nil {
+		return
+	}
+	fn := step.Fn("logic")
+	// the call (decoder or a helper that reaches it) whose nil error means "decoded"
+	var dec *ssa.Call
+	for _, c := range callsIn(fn) {
+		call, ok := c.(*ssa.Call)
+		if !ok {
+			continue
+		}
+		if matchDecoder(w, decTyp)(c) {
+			dec = call
+			break
+		}
+		if g := cx.moduleCallee(c); g != nil && w.scopeHasCall(w.scopeOf(g), matchDecoder(w, decTyp)) {
+			if _, has, _ := errResult(call); has {
+				dec = call
+			}
+		}
+	}
+	if dec == nil {
+		r.Undecided("R-ORDER", key, w.FnPos(fn), "the decoder call of the decode step was not found")
+		return
+	}
+	e, has, _ := errResult(dec)
+	if !has || e == nil {
+		r.Fail("R-ORDER", key, w.InstrPos(dec), "the decoder's error is not examined")
+		return
+	}
+	al := fx.aliasesOf(e)
+	aps, ok := fx.atomPaths(fn, 4096)
+	if !ok {
+		r.Undecided("R-ORDER", key, w.FnPos(fn), "too many paths")
+		return
+	}
+	n := 0
+	for i := range aps {
+		p := &aps[i]
+		decoded := false
+		for _, cp := range p.Conds {
+			if x, tnn, isNT := nilTest(cp.Cond); isNT && cp.Pol != tnn {
+				for _, a := range al {
+					if a == x {
+						decoded = true
+					}
+				}
+			}
+		}
+		if !decoded {
+			continue
+		}
+		n++
+		stored := false
+		after := false
+		for _, in := range p.Instrs() {
+			if in == ssa.Instruction(dec) {
+				after = true
+			}
+			if st, isSt := in.(*ssa.Store); isSt && after {
+				if fa, isFA := st.Addr.(*ssa.FieldAddr); isFA && fieldOwner(fa.X.Type()) == owner && fieldVar(fa.X.Type(), fa.Field).Name() == field {
+					stored = true
+				}
+			}
+		}
+		if !stored {
+			pos := w.FnPos(fn)
+			if p.Ret != nil {
+				pos = w.InstrPos(p.Ret)
+			}
+			r.Fail("R-ORDER", key, pos, fmt.Sprintf("the decode step can return after the request was decoded without recording its ID in %s.%s (%s): the reply to that request carries no InResponseTo", owner, field, atomsString(p.Atoms)))
+			return
+		}
+	}
+	r.Check(n > 0, "R-ORDER", key, w.FnPos(fn), fmt.Sprintf("%s.%s is stored on each of the %d paths on which the decoder succeeded", owner, field, n), "no path on which the decoder succeeds was found")
 }
